@@ -39,9 +39,33 @@ def kinds_of(choice: dict, sites) -> str:
     return "+".join(ks) or "canonical"
 
 
+def relocated(d: dict) -> dict:
+    """The content the CURRENT tree returns for header/footer comments (recorded as KF-C02-1 / KF-C02-2): the AST has no place for
+    them, so comments above the envelope, between envelope and META and between META and the separator lead the first body node
+    (document trailing comments if the body is empty), comments below END join the document trailing comments, and comments
+    between META fields are dropped."""
+    hc = d.get("hc") or {}
+    carried = list(hc.get("pre_env", ())) + list(hc.get("pre_meta", ())) + list(hc.get("post_meta", ()))
+    body = [list(n) if isinstance(n, (list, tuple)) else n for n in d["body"]]
+    trailing = list(d["trailing"])
+    if carried:
+        if body:
+            n = body[0]
+            li = {"A": 3, "B": 4, "S": 5}[n[0]]
+            n[li] = carried + list(n[li])
+            body[0] = tuple(n)
+        else:
+            trailing = carried + trailing
+    trailing += list(hc.get("post_end", ()))
+    out = dict(d, body=body, trailing=trailing)
+    out.pop("hc", None)
+    return out
+
+
 def check_doc(case, max_full=None, enabled=None, singles_only=False) -> Res:
     label, d = case
     exp = norm(dm.dcontent(d))
+    exp_reloc = norm(dm.dcontent(relocated(d))) if d.get("hc") else None
     choices, how = choice_space(d, MAX_FULL if max_full is None else max_full, enabled)
     if singles_only:
         choices = [c for c in choices if len(c) <= 1]
@@ -64,7 +88,18 @@ def check_doc(case, max_full=None, enabled=None, singles_only=False) -> Res:
             continue
         texts.append(r.text)
         got = norm(dmap(doc))
-        if got != exp:
+        exp_here = exp
+        if got != exp and exp_reloc is not None and got == exp_reloc:
+            # exactly the recorded relocation of header/footer comments (KF-C02-1/2) and nothing else: report it under its own
+            # one-atom-per-slot descriptor and go on checking the canonical round trip against the relocated content
+            slots = sorted(d["hc"])
+            atoms = [("header-comment-dropped:" if k == "meta_inner" else "header-comment-relocated:") + k for k in slots]
+            viol.append(dict(descriptor="read:" + ";".join(atoms), atoms=["read:" + a for a in atoms],
+                             case=dict(label=label, doc=d, choices={str(k): v for k, v in ch.items()}),
+                             observed=f"text={r.text!r} got={json.dumps(got, ensure_ascii=False)[:600]}",
+                             expected=json.dumps(exp, ensure_ascii=False)[:600]))
+            exp_here = exp_reloc
+        elif got != exp:
             atoms = sorted(set(diff(exp, got)))
             viol.append(dict(descriptor="read:" + ";".join(atoms), atoms=["read:" + a for a in atoms], sites=kinds_of(ch, r.sites),
                              case=dict(label=label, doc=d, choices={str(k): v for k, v in ch.items()}),
@@ -81,12 +116,12 @@ def check_doc(case, max_full=None, enabled=None, singles_only=False) -> Res:
                              observed=f"c1={c1!r} -> {e}", expected="strict reader accepts canonical text"))
             continue
         got2 = norm(dmap(d2))
-        if got2 != exp:
-            atoms = sorted(set(diff(exp, got2)))
+        if got2 != exp_here:
+            atoms = sorted(set(diff(exp_here, got2)))
             viol.append(dict(descriptor="reread:" + ";".join(atoms), atoms=["reread:" + a for a in atoms],
                              case=dict(label=label, doc=d, choices={str(k): v for k, v in ch.items()}),
                              observed=f"c1={c1!r} got={json.dumps(got2, ensure_ascii=False)[:600]}",
-                             expected=json.dumps(exp, ensure_ascii=False)[:600]))
+                             expected=json.dumps(exp_here, ensure_ascii=False)[:600]))
     # keep one violation per descriptor per document
     seen = set()
     uniq = []
@@ -108,6 +143,7 @@ def run(ctx):
     ctx.explore("structure", dm.structure_sweep(n, d), check_doc, chunk=20)
     ctx.explore("values", dm.value_sweep(), check_doc, chunk=10)
     ctx.explore("decoration", dm.decoration_sweep(), check_doc_singles, chunk=40)
+    ctx.explore("comments", dm.comment_sweep(2 if ctx.quick else 3), check_doc_singles, chunk=20)
     ctx.explore("adjacency", dm.adjacency_sweep(inside=("top",) if ctx.quick else ("top", "block", "section")), check_doc_singles,
                 chunk=100)
 
@@ -124,4 +160,9 @@ def _tuplify_doc(d):
     return d
 
 
-TRIGGERS = {}
+def trig_hc(case, v):
+    hc = (case.get("doc") or {}).get("hc") or {}
+    return bool(hc)
+
+
+TRIGGERS = {"has_header_comments": trig_hc}
